@@ -425,10 +425,10 @@ class _TeePeer(AsyncIterator[T]):
 
     An async generator that was never started does not run its ``finally`` clause
     when it is closed. This wrapper runs the cleanup of a :py:func:`tee_peer`
-    if it is closed before it was ever advanced.
+    if the generator did not get to run it.
     """
 
-    __slots__ = ("_generator", "_unstarted")
+    __slots__ = ("_generator", "_cleanup")
 
     def __init__(
         self,
@@ -438,20 +438,17 @@ class _TeePeer(AsyncIterator[T]):
         lock: AsyncContextManager[Any],
     ):
         self._generator = tee_peer(iterator, buffer, peers, lock)
-        # the cleanup arguments as long as the generator has not been started
-        self._unstarted: Optional[
-            Tuple[AsyncIterator[T], Deque[T], List[Deque[T]]]
-        ] = (iterator, buffer, peers)
+        self._cleanup = (iterator, buffer, peers)
 
     def __anext__(self) -> Awaitable[T]:
-        self._unstarted = None
         return self._generator.__anext__()
 
     async def aclose(self) -> None:
-        unstarted, self._unstarted = self._unstarted, None
         await self._generator.aclose()
-        if unstarted is not None:
-            await _tee_peer_done(*unstarted)
+        iterator, buffer, peers = self._cleanup
+        # still registered as a peer: the generator never ran, so neither did its cleanup
+        if any(peer_buffer is buffer for peer_buffer in peers):
+            await _tee_peer_done(iterator, buffer, peers)
 
 
 @public_module(__name__, "tee")
